@@ -284,7 +284,8 @@ func (vm *VirtualMachine) resetForNewCode() {
 	vm.sp = -1
 	vm.ip = 0
 	vm.fp = 0
-	vm.halt = 0
+	// (the halt flag is cleared by start, under the lock: clearing it here as
+	// well could erase a cancellation that arrived in between)
 	vm.activeFrame = nil
 	vm.activeCode = nil
 	vm.loadedCode = map[*compiler.Code]*code{}
